@@ -326,6 +326,31 @@ def raw_record(tid, st, spec, werr=False):
     return rec
 
 
+def _decimal_twin(hh):
+    """the same hand with its chips counted in hundredths: every chip value of the history / 100 as a Decimal"""
+    import dataclasses
+    import re
+    from decimal import Decimal
+
+    def d(v):
+        return Decimal(int(v)) / 100
+    ch = {}
+    for f in ('antes', 'blinds_or_straddles', 'starting_stacks'):
+        v = getattr(hh, f)
+        if v is not None:
+            ch[f] = [d(x) for x in v]
+    for f in ('bring_in', 'small_bet', 'big_bet', 'min_bet'):
+        v = getattr(hh, f)
+        if v is not None:
+            ch[f] = d(v)
+    acts = []
+    for a in hh.actions:
+        m = re.match(r'^(p\d+ cbr )(\d+)(.*)$', a)
+        acts.append(m.group(1) + str(d(m.group(2))) + m.group(3) if m else a)
+    ch['actions'] = acts
+    return dataclasses.replace(hh, **ch)
+
+
 def phh_pair(tid, spec, rng, pol, cut_p=0.3, user_fields=True):
     """A: a hand played on the engine; B: the replay of the hand history written from it (dump -> load -> iterate)"""
     from pokerkit import HandHistory
@@ -360,6 +385,30 @@ def phh_pair(tid, spec, rng, pol, cut_p=0.3, user_fields=True):
             for stB in hh2:
                 pass
         flags.append(['the loaded history replays without error', True])
+        if hh.actions and stB is not None and spec.get('chips') is None:
+            # decimal chip values, and several hands in one file: the same hand counted in hundredths, written alone and as the
+            # second hand of a two-hand file
+            with warnings.catch_warnings():
+                warnings.simplefilter('ignore')
+                dec = _decimal_twin(hh)
+                dtext = dec.dumps()
+                flags.append(['decimal chips: saving the loaded history again gives the identical text', HandHistory.loads(dtext).dumps() == dtext])
+                many = list(HandHistory.loads_all(HandHistory.dumps_all([hh, dec])))
+                flags.append(['a two-hand file holds the two hands as they read alone',
+                              len(many) == 2 and many[0].dumps() == text and many[1].dumps() == dtext])
+                if len(many) == 2:
+                    last = None
+                    for last in many[1]:
+                        pass
+                    pushes = [o for o in stA.operations if type(o).__name__ == 'ChipsPushing']
+                    # whole chips are divided with a remainder, decimal chips exactly: only undivided pots (one push per pot, to one
+                    # player) must come out the same
+                    divided = any(sum(1 for x in o.amounts if x) != 1 for o in pushes) or len({o.pot_index for o in pushes}) != len(pushes)
+                    flags.append(['decimal chips: the hand read from the two-hand file replays to the same operations',
+                                  [type(o).__name__ for o in last.operations] == [type(o).__name__ for o in stB.operations]])
+                    if not divided:
+                        flags.append(['decimal chips: the replay ends with the same stacks (in hundredths)',
+                                      [x * 100 for x in last.stacks] == list(stB.stacks)])
         if not stA.status and hh.actions and stB is not None:
             # a history that leaves out the free checks is completed in the documented way: same final chips
             slim = HandHistory.loads(text)
